@@ -30,5 +30,6 @@ pub fn run_property(id: &str, tier: Tier, replay: Option<(String, Value)>) -> i3
         "C13" => c13,
         "C14" => c14,
         "C16" => c16,
+        "C18" => c18,
     }
 }
